@@ -621,6 +621,18 @@ def run(repo, chk):
 
 
 WITNESSES = [
+    dict(name="revert-fd4d5c22-else-setting-companion-on-the-then-branch", file="wntr/sim/core.py",
+         old="                    if any(action is a for a in control._else_actions):\n                        # an ELSE action of a rule acts when the condition is false: so must the status change that goes with it\n"
+             "                        new_control = type(control)(condition, [], [new_action], priority=control.priority)\n                    else:\n"
+             "                        new_control = type(control)(condition, new_action, priority=control.priority)\n                    valve_controls.append(new_control)\n",
+         new="                    new_control = type(control)(condition, new_action, priority=control.priority)\n                    valve_controls.append(new_control)\n", rule="R-C03-4"),
+    dict(name="else-companion-built-from-the-branch-lists-preserving", file="wntr/sim/core.py",
+         old="                    if any(action is a for a in control._else_actions):\n                        # an ELSE action of a rule acts when the condition is false: so must the status change that goes with it\n"
+             "                        new_control = type(control)(condition, [], [new_action], priority=control.priority)\n                    else:\n"
+             "                        new_control = type(control)(condition, new_action, priority=control.priority)\n                    valve_controls.append(new_control)\n",
+         new="                    on_else = action in list(control._else_actions)\n                    if not on_else:\n"
+             "                        new_control = type(control)(condition, new_action, priority=control.priority)\n                    else:\n"
+             "                        new_control = type(control)(condition, [], else_actions=[new_action], priority=control.priority)\n                    valve_controls.append(new_control)\n", silent=True),
     dict(name="noon-hour-written-as-am", file=EIO, old="        if hrs < 12:\n            time_format = ' AM'\n        else:\n            hrs -= 12\n            time_format = ' PM'",
          new="        time_format = ' AM'\n        if hrs > 12:\n            hrs -= 12\n            time_format = ' PM'", rule="R-C03-2"),
     dict(name="head-converted-as-pressure", file=EIO, old="self.results.node['head'] = HydParam.HydraulicHead._to_si(self.flow_units, df['head'])",
